@@ -10,6 +10,7 @@
 
 #include <etl/linalg.hpp>
 #include <etl/mdarray.hpp>
+#include <etl/vector.hpp>
 
 #include <vector>
 
@@ -277,7 +278,7 @@ etl::array<Idx, N> values_for(Arr const& shape) // N == rank: all extents; else 
     return a;
 }
 
-template <typename L, typename E>
+template <typename L, typename E, std::size_t GE>
 NOINL void mdspan_canonical(Ctx& c)
 {
     constexpr std::size_t R  = E::rank();
@@ -306,6 +307,22 @@ NOINL void mdspan_canonical(Ctx& c)
         crumb_op(c, s, "mdspan(mdspan<Other...>):->const,all-dynamic");
         MDC const cv(md);
         md_light(c, s, "mdspan(mdspan<Other...>):->const,all-dynamic", cv, static_cast<Cell const*>(p), mod, 3);
+        // conversion to views over other patterns of the same rank with compatible static extents (at most 3 per source,
+        // same rank_dynamic() at other positions first): every element must keep its address
+        for_each_target<Idx, GE, 3>([&]<typename F, std::size_t GF>() {
+            if (!shape_matches<F>(c.shape)) { return; }
+            using MDF = etl::mdspan<Cell, F, L>;
+            static_assert(std::is_constructible_v<MDF, MD const&>);
+            char const* const op = F::rank_dynamic() == RD ? "mdspan(mdspan<Other...>):same-rank_dynamic,other-positions" : "mdspan(mdspan<Other...>):other-static/dynamic-pattern";
+            crumb_op(c, s, op);
+            MDF const cvf(md);
+            md_light(c, s, op, cvf, p, mod, 100 + GF);
+            crumb_op(c, s, op);
+            expect_int("size()", (LL)cvf.size(), mod.size());
+            if constexpr (R > 0) {
+                for (std::size_t r = 0; r < R; ++r) { expect_int("stride(r)", (LL)cvf.stride(r), mod.st[r]); }
+            }
+        });
         // deduction: mdspan(ptr, extents) is layout_right
         if constexpr (std::is_same_v<L, etl::layout_right>) {
             crumb_op(c, s, "mdspan(ptr,extents) deduction");
@@ -394,9 +411,10 @@ std::vector<Model> stride_models(Ctx& c, Arr const& shape, std::size_t R)
         unsigned const h = (unsigned)(c.h >> 8);
         v.push_back(model_strided(shape, R, nperm - 1, 1, 1));         // row-major with padded rows
         v.push_back(model_strided(shape, R, h % nperm, 0, 2));         // permuted, every second element
+        v.push_back(model_strided(shape, R, (h / 24) % nperm, 2, 1));  // permuted and padded
         if (c.thorough) {
             v.push_back(model_strided(shape, R, 0, 2, 1));
-            v.push_back(model_strided(shape, R, (h / 24) % nperm, 3, 3));
+            v.push_back(model_strided(shape, R, (h / 576) % nperm, 3, 3));
         }
     }
     std::vector<Model> out;
@@ -485,6 +503,7 @@ NOINL void mdspan_transposed(Ctx& c)
 }
 
 // ------------------------------------------------------------------ mdarray
+unsigned long long cells_read = 0; // keeps the read-through of arr_light observable
 // after every constructor form: storage size, addresses through the const operator()
 template <typename A>
 NOINL void arr_light(Ctx const& c, std::string const& s, char const* op, A const& a, Model const& mod, std::uint64_t salt)
@@ -503,12 +522,44 @@ NOINL void arr_light(Ctx const& c, std::string const& s, char const* op, A const
         } while (next(i, mod.e, R));
     }
     judge(c, "operator()(index_type...) const", got, mod, salt, "element-address");
+    // the elements must live inside the storage the array owns (container_size() elements): a container sized with anything
+    // but required_span_size() is too short for padded strides.  Elements inside are read (ASan: exact-size block).
+    LL const ncells = (LL)a.container_size();
+    for (LL g : got) {
+        if (g < 0 || g >= ncells) {
+            vf::diverge("element-address:outside-container", "offset " + vf::to_s(g), "inside [0," + vf::to_s(ncells) + ")");
+            break;
+        }
+        cells_read += base[g].lin == base[g].lin;
+    }
+}
+// write every element through the non-const operator() (only those inside the container; the others were reported above)
+template <typename A>
+NOINL void arr_touch(Ctx const& c, std::string const& s, char const* op, A& a, Model const& mod, std::uint64_t salt)
+{
+    constexpr std::size_t R = A::rank();
+    Cell* const base        = a.container_data();
+    LL const ncells         = (LL)a.container_size();
+    for (LL k = 0; k < ncells; ++k) { base[k] = Cell{(int)k, -1}; }
+    Arr i{};
+    int n = 0;
+    if (!mod.empty()) {
+        do {
+            crumb_idx(c, s, op, i, R);
+            Cell& ref   = call_idx<Idx, R>(a, i);
+            LL const at = (LL)(&ref - base);
+            if (at >= 0 && at < ncells) { ref.tag = n; }
+            ++n;
+        } while (next(i, mod.e, R));
+    }
+    if (mod.span() <= ncells) { judge_writes(c, "write-through", base, ncells, mod, salt); }
 }
 template <typename A>
 NOINL void expect_fill(A const& a, Model const& mod, int lin, int tag, char const* what)
 {
     Cell const* const d = a.container_data();
-    for (LL k = 0; k < mod.span(); ++k) {
+    LL const n          = mod.span() < (LL)a.container_size() ? mod.span() : (LL)a.container_size();
+    for (LL k = 0; k < n; ++k) {
         if (d[k].lin != (lin < 0 ? (int)k : lin) || d[k].tag != tag) {
             vf::diverge(what, "cell " + vf::to_s(k) + " = {" + vf::to_s(d[k].lin) + "," + vf::to_s(d[k].tag) + "}", "initial value");
             return;
@@ -763,30 +814,84 @@ NOINL void mdarray_canonical(Ctx& c)
     }
 }
 
+constexpr std::size_t SVCAP = 1024; // capacity of the static_vector container; larger spans are skipped for it
 template <typename E>
 NOINL void mdarray_strided(Ctx& c)
 {
     constexpr std::size_t R = E::rank();
     using M                 = etl::layout_stride::mapping<E>;
     using A                 = etl::mdarray<Cell, E, etl::layout_stride, BufVec<Cell>>;
+    using SV                = etl::static_vector<Cell, SVCAP>;
+    using AS                = etl::mdarray<Cell, E, etl::layout_stride, SV>;
     std::string const s     = std::string("mdarray<layout_stride,") + IDXN + ",BufVec>";
+    std::string const ss    = std::string("mdarray<layout_stride,") + IDXN + ",static_vector>";
     E const e               = make_extents<E>(c.shape);
     std::uint64_t n         = 0;
+    // padded and permuted (non-exhaustive) stride sets: size() < required_span_size()
     for (Model const& mod : stride_models(c, c.shape, R)) {
         ++n;
         c.extra = "strides=" + show(mod.st, R);
         etl::array<Idx, R> sa{};
         for (std::size_t r = 0; r < R; ++r) { sa[r] = static_cast<Idx>(mod.st[r]); }
         M const m(e, sa);
-        // mdarray(mapping) / (mapping,value) need layout_stride::required_span_size (declared, not defined): not reachable
-        crumb_op(c, s, "mdarray(mapping,container&&)");
-        A a(m, indexed_container(mod.span()));
-        arr_light(c, s, "mdarray(mapping,container&&)", a, mod, n * 8 + 1);
-        arr_full<CapsStride>(c, s, a, mod);
-        BufVec<Cell> const src = indexed_container(mod.span());
-        crumb_op(c, s, "mdarray(mapping,container const&)");
-        A a2(m, src);
-        arr_light(c, s, "mdarray(mapping,container const&)", a2, mod, n * 8 + 2);
+        {
+            crumb_op(c, s, "mdarray(mapping,container&&)");
+            A a(m, indexed_container(mod.span()));
+            arr_light(c, s, "mdarray(mapping,container&&)", a, mod, n * 16 + 1);
+            arr_full<CapsStride>(c, s, a, mod);
+            BufVec<Cell> const src = indexed_container(mod.span());
+            crumb_op(c, s, "mdarray(mapping,container const&)");
+            A a2(m, src);
+            arr_light(c, s, "mdarray(mapping,container const&)", a2, mod, n * 16 + 2);
+            expect_fill(a2, mod, -1, -1, "mdarray(mapping,container const&):elements");
+            crumb_op(c, s, "mdarray(mdarray const&)");
+            A cp(a2);
+            arr_light(c, s, "mdarray(mdarray const&)", cp, mod, n * 16 + 3);
+            crumb_op(c, s, "mdarray(mdarray&&)");
+            A mv(std::move(cp));
+            arr_light(c, s, "mdarray(mdarray&&)", mv, mod, n * 16 + 4);
+        }
+        // the constructors that size the container themselves (need layout_stride::required_span_size())
+        {
+            crumb_op(c, s, "mdarray(mapping)");
+            A a(m);
+            arr_light(c, s, "mdarray(mapping)", a, mod, n * 16 + 5);
+            expect_fill(a, mod, 0, 0, "mdarray(mapping):elements-value-initialised");
+            arr_touch(c, s, "mdarray(mapping)", a, mod, n * 16 + 5);
+            crumb_op(c, s, "mdarray(mapping,value)");
+            A a2(m, Cell{8, 3});
+            arr_light(c, s, "mdarray(mapping,value)", a2, mod, n * 16 + 6);
+            expect_fill(a2, mod, 8, 3, "mdarray(mapping,value):elements");
+            arr_touch(c, s, "mdarray(mapping,value)", a2, mod, n * 16 + 6);
+        }
+        // the same with etl::static_vector as the (size-constructible) container
+        if (mod.span() <= (LL)SVCAP) {
+            crumb_op(c, ss, "mdarray(mapping)");
+            AS a(m);
+            arr_light(c, ss, "mdarray(mapping)", a, mod, n * 16 + 7);
+            expect_fill(a, mod, 0, 0, "mdarray(mapping):elements-value-initialised");
+            arr_touch(c, ss, "mdarray(mapping)", a, mod, n * 16 + 7);
+            crumb_op(c, ss, "mdarray(mapping,value)");
+            AS a2(m, Cell{8, 3});
+            arr_light(c, ss, "mdarray(mapping,value)", a2, mod, n * 16 + 8);
+            expect_fill(a2, mod, 8, 3, "mdarray(mapping,value):elements");
+            arr_touch(c, ss, "mdarray(mapping,value)", a2, mod, n * 16 + 8);
+            SV src((std::size_t)mod.span());
+            for (LL k = 0; k < mod.span(); ++k) { src[(std::size_t)k] = Cell{(int)k, -1}; }
+            crumb_op(c, ss, "mdarray(mapping,container const&)");
+            AS a3(m, src);
+            arr_light(c, ss, "mdarray(mapping,container const&)", a3, mod, n * 16 + 9);
+            expect_fill(a3, mod, -1, -1, "mdarray(mapping,container const&):elements");
+            crumb_op(c, ss, "mdarray(mapping,container&&)");
+            AS a4(m, std::move(src));
+            arr_light(c, ss, "mdarray(mapping,container&&)", a4, mod, n * 16 + 10);
+            crumb_op(c, ss, "mdarray(mdarray const&)");
+            AS cp(a3);
+            arr_light(c, ss, "mdarray(mdarray const&)", cp, mod, n * 16 + 11);
+            crumb_op(c, ss, "to_mdspan()");
+            auto const md = a2.to_mdspan();
+            md_light(c, ss, "to_mdspan()", md, a2.container_data(), mod, n * 16 + 12);
+        }
     }
     c.extra.clear();
 }
@@ -860,8 +965,8 @@ struct Run {
     {
         using E = sel_t<K>;
         switch (c.group) {
-        case 0: mdspan_canonical<etl::layout_left, E>(c); break;
-        case 1: mdspan_canonical<etl::layout_right, E>(c); break;
+        case 0: mdspan_canonical<etl::layout_left, E, VF_PLO + K * VF_PSTEP>(c); break;
+        case 1: mdspan_canonical<etl::layout_right, E, VF_PLO + K * VF_PSTEP>(c); break;
         case 2:
             if constexpr (E::rank() > 0) { mdspan_strided<E>(c); }
             break;
